@@ -587,6 +587,7 @@ fn main() {
         t => {
             let mut rng = Rng::new(a.seed ^ if a.prop == "C11" { 0x11 } else { 0 });
             let lines = gen_cases::generate(&a.prop, t == "thorough", &mut rng);
+            out.case("pins", "-"); // K5: checks/c10.py compares the pinned source functions for this pseudo-case
             run_lines(&a, &lines, &mut out);
         }
     }
